@@ -896,6 +896,11 @@ impl World {
         self.park(Self::me(), Wait::IoQuiet);
     }
 
+    /// Id of the calling actor.
+    pub fn current_actor(&self) -> usize {
+        Self::me()
+    }
+
     /// Batch driver: let the broker perform the push with this label now and make its
     /// bytes readable at once. Returns false if no such push is currently offered.
     pub fn force_push(&self, label: &str) -> bool {
